@@ -36,8 +36,10 @@ PROTO_TRUST = [
     "event ids are random (ephemeral keys, MLS randomness): histories with equal wrapper timestamps replay up to the order of event ids",
 ]
 PROTO_ASSUME = [
-    "fixed initial membership (3-4 members joined through real welcomes), actions: self-update / rename commits, application messages (incl. pre-set rumor ids), leave proposals with admin auto-commit, own-commit echo / immediate merge / clear, hostile wrapper events, commits built directly with OpenMLS by non-admins, duplicates, epoch-causal and unrestricted delivery",
+    "3-4 initial members joined through real welcomes, optionally two of them devices of one Nostr identity, at most one later joiner, one removal and one leave per history, one group",
     "clear_pending_commit is only used for commits that were never delivered to anyone (its documented purpose)",
+    "the engine model keeps a static own-admin flag (it only decides the auto-commit of leave proposals): no leave proposal is generated after an authorised admin-set change; it has no sender-side ratchet generations: a client that re-entered an MLS state through a rollback triggered by one of its own commits creates nothing more in generated histories",
+    "application messages first offered more than the exporter-secret look-back (5 epochs) after they were sent, and forks deeper than the snapshot retention, are outside the convergence / delivery oracles",
 ]
 
 REGISTRY = {
